@@ -135,6 +135,11 @@ def well_formed(fields):
 
 
 def run_cmd(argv):
+    import time
+    for _ in range(60):              # the shared binary is briefly absent while another check relinks it
+        if os.path.exists(argv[0]) or "/" not in argv[0]:
+            break
+        time.sleep(5)
     r = subprocess.run(argv, stdout=subprocess.PIPE, stderr=subprocess.PIPE, timeout=120)
     return r.returncode, r.stdout.decode("latin-1"), r.stderr.decode("latin-1")
 
